@@ -317,7 +317,8 @@ def rule_c13_choice(prog: Program, col: Collector) -> None:
         return
     comp = v[2][0]
     elem, it, conds = comp[3][0]
-    if len(conds) == 1 and is_call_to(conds[0], "numpy.isclose", "math.isclose", "numpy.allclose") and len(conds[0][2]) >= 2:
+    if len(conds) == 1 and conds[0][0] == "call" and conds[0][1][0] == "global" and conds[0][1][1].rsplit(".", 1)[-1] in ("isclose", "allclose") \
+            and len(conds[0][2]) >= 2:
         col.check(False, ref.where(), ref.short, "the candidate filter is exact equality with the extremum (found a tolerance comparison)", construct="greedy-tolerance-tie",
                   necessity="np.isclose has a relative tolerance of 1e-5: a lower-index action whose reward is strictly worse than the extremum can be returned")
         conds = (("cmp", "==", conds[0][2][0], conds[0][2][1]),)
